@@ -272,7 +272,22 @@ func solveAll(obls []*Obligation, o *checkOpts) {
 			if ob.Slow {
 				to *= 6 // clauses marked @slow: known to need tens of seconds (64-bit adder identities)
 			}
-			ob.Res = SolveVariants(files, to, o.seed, o.tier == "thorough" && ob.Expect == "unsat")
+			// proofs do not depend on VERIF_SEED: the first attempt always uses solver seed 0; an inconclusive
+			// answer (timeout/unknown, never sat) is retried with other seeds and a longer budget before the
+			// obligation is reported as failed.
+			ob.Res = SolveVariants(files, to, 0, o.tier == "thorough" && ob.Expect == "unsat")
+			if ob.Expect == "unsat" {
+				for attempt := 1; attempt <= 2 && (ob.Res.Status == "timeout" || ob.Res.Status == "unknown"); attempt++ {
+					r2 := SolveVariants(files, to*2, 7919*attempt+o.seed, false)
+					r2.Secs += ob.Res.Secs
+					if r2.Status == "unsat" || r2.Status == "sat" {
+						r2.Solver += fmt.Sprintf(" (retry %d)", attempt)
+						ob.Res = r2
+					} else {
+						ob.Res.Secs = r2.Secs
+					}
+				}
+			}
 		}()
 	}
 	wg.Wait()
